@@ -17,7 +17,7 @@ Expired(at, now, to) == to # Inf /\ now - at >= to    \* !(elapsed < timeout)
 (* specification is typable for Apalache; the constructors below keep the phases readable.  *)
 \* @typeAlias: pollSt = { ph: Str, fb: Int, reg: Bool, ismsb: Bool, nm: Int, nl: Int, at: Int, b: Int, vm: Int, vl: Int };
 \* @typeAlias: pollRes = { st: $pollSt, out: Seq(Seq(Int)) };
-\* @typeAlias: pollGhost = { nm: Int, nl: Int, kind: Bool, c6: Int, c6t: Int, c38: Int, c38t: Int, rep: Bool, last: Str, late38: Bool, owe: Bool };
+\* @typeAlias: pollGhost = { nm: Int, nl: Int, kind: Bool, km: Bool, kl: Bool, c6: Int, c6t: Int, c38: Int, c38t: Int, p38: Bool, rep: Bool, last: Str, late38: Bool, owe: Bool };
 PollAliases == TRUE
 
 \* @type: $pollSt;
@@ -134,14 +134,21 @@ PollReset(st) == PollInit
 (* each call and the reports the call produced.                             *)
 (***************************************************************************)
 \* @type: $pollGhost;
-PgInit == [nm |-> None, nl |-> None, kind |-> FALSE,
-           c6 |-> None, c6t |-> 0, c38 |-> None, c38t |-> 0,
+PgInit == [nm |-> None, nl |-> None, kind |-> FALSE, km |-> FALSE, kl |-> FALSE,
+           c6 |-> None, c6t |-> 0, c38 |-> None, c38t |-> 0, p38 |-> FALSE,
            rep |-> FALSE, last |-> "none", late38 |-> FALSE, owe |-> FALSE]
+(* km / kl : the latest number MSB / LSB byte was a registered one (101 / 100)              *)
+(* p38     : the most recent controller-38 byte was reported in a 14-bit value by its own   *)
+(*           feed, i.e. it is not an UNPAIRED data entry LSB                                *)
 
 \* @type: ($pollGhost) => Bool;
 PgComplete(g) == g.nm # None /\ g.nl # None
 \* @type: ($pollGhost) => Int;
 PgNumber(g)   == 128 * g.nm + g.nl
+\* the latest MSB and LSB bytes are of different kinds (one registered, one not): the property text does
+\* not say which flag such a number has, nor whether it counts as complete - nothing is demanded then
+\* @type: ($pollGhost) => Bool;
+PgMixed(g)    == PgComplete(g) /\ g.km # g.kl
 \* @type: (Int, Int, Int) => Bool;
 Late(t0, now, to) == to # Inf /\ now - t0 >= to
 
@@ -159,7 +166,7 @@ HasEntry(o)  == \E i \in DOMAIN o : IsEntry7(o[i]) \/ IsEntry14(o[i])
 \* clauses on every single report r of a call on channel c (a = the fed message or <<>> for poll)
 \* @type: ($pollGhost, Int, Seq(Int), Seq(Int)) => Set(Str);
 ReportClauses(g, c, a, r) ==
-    (IF PgComplete(g) /\ r[1] = c /\ r[2] = PgNumber(g) /\ r[4] = B2I(g.kind)
+    (IF PgComplete(g) /\ r[1] = c /\ r[2] = PgNumber(g) /\ (PgMixed(g) \/ r[4] = B2I(g.kind))
         THEN {} ELSE {"C14a"})
     \cup
     (IF IsIncDec(r) =>
@@ -193,7 +200,6 @@ PollFeedViolations(g, m, o, gap, now, to) ==
     (IF /\ Len(o) <= 2 /\ ~gap
         /\ (Len(o) = 2 => /\ IsCC(m) /\ CcNum(m) \in {96, 97}
                           /\ IsEntry7(o[1]) /\ IsIncDec(o[2]))
-        /\ (~IsPnContrib(m) => o = <<>>)
         THEN {} ELSE {"C14f"})
     \cup
     (IF (IsCC(m) /\ CcNum(m) = 6 /\ g.last = "cc38" /\ g.late38) => ~Has14(o)
@@ -206,8 +212,14 @@ PollPollViolations(g, c, o, now, to) ==
     \cup
     (IF (g.owe /\ Late(g.c6t, now, to)) => CarriesC6(g, o) THEN {} ELSE {"C14e"})
     \cup
-    (IF o = (IF g.owe /\ Late(g.c6t, now, to)
-             THEN << Pn7(c, PgNumber(g), g.c6, g.kind, DtEntry) >> ELSE <<>>)
+    \* C13: a pending MSB whose timeout has passed is returned (once: owe is consumed) ...
+    (IF (g.owe /\ Late(g.c6t, now, to)) => o = << Pn7(c, PgNumber(g), g.c6, g.kind, DtEntry) >>
+        THEN {} ELSE {"C13p"})
+    \cup
+    \* ... and poll returns a message ONLY IF it is the 7-bit data entry of the most recent controller-6
+    \* byte and at least the timeout has passed since that byte was fed
+    (IF o # <<>> => /\ Len(o) = 1 /\ IsEntry7(o[1]) /\ g.c6 # None /\ o[1][3] = g.c6
+                    /\ Late(g.c6t, now, to)
         THEN {} ELSE {"C13p"})
 
 \* @type: ($pollGhost, Seq(Int), Seq(Seq(Int)), Int) => $pollGhost;
@@ -215,14 +227,14 @@ PgFeed(g, m, o, now) ==
     IF ~IsPnContrib(m) THEN g
     ELSE LET n == CcNum(m)  v == CcVal(m)
              rep2 == g.rep \/ HasEntry(o) IN
-         CASE n \in {99, 101} -> [g EXCEPT !.nm = v, !.kind = (n = 101), !.last = "num",
+         CASE n \in {99, 101} -> [g EXCEPT !.nm = v, !.kind = (n = 101), !.km = (n = 101), !.last = "num",
                                            !.owe = FALSE, !.late38 = FALSE, !.rep = rep2]
-           [] n \in {98, 100} -> [g EXCEPT !.nl = v, !.kind = (n = 100), !.last = "num",
+           [] n \in {98, 100} -> [g EXCEPT !.nl = v, !.kind = (n = 100), !.kl = (n = 100), !.last = "num",
                                            !.owe = FALSE, !.late38 = FALSE, !.rep = rep2]
            [] n = 6  -> [g EXCEPT !.c6 = v, !.c6t = now, !.rep = Has14(o),
-                                  !.owe = PgComplete(g) /\ ~Has14(o),
+                                  !.owe = PgComplete(g) /\ ~PgMixed(g) /\ ~Has14(o),
                                   !.last = "cc6", !.late38 = FALSE]
-           [] n = 38 -> [g EXCEPT !.c38 = v, !.c38t = now, !.last = "cc38",
+           [] n = 38 -> [g EXCEPT !.c38 = v, !.c38t = now, !.p38 = Has14(o), !.last = "cc38",
                                   !.owe = FALSE, !.late38 = FALSE, !.rep = rep2]
            [] OTHER  -> [g EXCEPT !.last = "incdec", !.owe = FALSE, !.late38 = FALSE,
                                   !.rep = rep2]
@@ -231,7 +243,7 @@ PgFeed(g, m, o, now) ==
 PgPoll(g, o, now, to) ==
     [g EXCEPT !.rep    = g.rep \/ HasEntry(o),
               !.owe    = g.owe /\ ~Late(g.c6t, now, to),
-              !.late38 = g.late38 \/ (g.last = "cc38" /\ Late(g.c38t, now, to))]
+              !.late38 = g.late38 \/ (g.last = "cc38" /\ ~g.p38 /\ Late(g.c38t, now, to))]
 
 \* @type: ($pollGhost) => $pollGhost;
 PgReset(g) == PgInit
@@ -239,7 +251,7 @@ PgReset(g) == PgInit
 \* "early" poll in the sense of the property: nothing that is pending has reached its timeout
 \* @type: ($pollGhost, Int, Int) => Bool;
 PollIsEarly(g, now, to) ==
-    /\ (g.owe => ~Late(g.c6t, now, to))
+    /\ (g.last = "cc6"  => ~Late(g.c6t, now, to))
     /\ (g.last = "cc38" => ~Late(g.c38t, now, to))
 
 ===============================================================================
